@@ -16,9 +16,6 @@ Open Scope Z_scope.
 Definition seg_of (s : image_spec) (p : phdr_spec) : segm :=
   {| g_hdr := exp_phdr s p; g_kind := spec_segment_kind (p_tyname s p) |}.
 
-Definition nth_seg (s : image_spec) (j : Z) : option phdr_spec :=
-  if (0 <=? j) && (j <? n_segments s) then nth_error (i_segments s) (Z.to_nat j) else None.
-
 Lemma nth_seg_inv s j p : nth_seg s j = Some p ->
   0 <= j < n_segments s /\ nth_error (i_segments s) (Z.to_nat j) = Some p.
 Proof.
@@ -68,6 +65,93 @@ Proof.
   destruct (assoc_str kind_table t) as [e|] eqn:E; [|cbn [fst]; discriminate].
   apply kind_table_dynamic with (t := t). exact E.
 Qed.
+
+(* ------------------------------------------------------------------ dict facts *)
+Lemma bytes_eqb_sym a b : bytes_eqb a b = bytes_eqb b a.
+Proof.
+  destruct (bytes_eqb a b) eqn:E1; destruct (bytes_eqb b a) eqn:E2; try reflexivity.
+  - apply bytes_eqb_eq in E1. subst b. rewrite (proj2 (bytes_eqb_eq a a) eq_refl) in E2. discriminate.
+  - apply bytes_eqb_eq in E2. subst b. rewrite (proj2 (bytes_eqb_eq a a) eq_refl) in E1. discriminate.
+Qed.
+
+Lemma pydict_get_app {V} (a b : dict (list Z) V) k :
+  PyData.dict_get bytes_eqb (a ++ b) k =
+  match PyData.dict_get bytes_eqb a k with Some v => Some v | None => PyData.dict_get bytes_eqb b k end.
+Proof.
+  induction a as [|[ka va] a IH]; cbn [app PyData.dict_get]; [reflexivity|].
+  destruct (bytes_eqb k ka); [reflexivity|exact IH].
+Qed.
+
+Lemma memb_keys_get {V} (d : dict (list Z) V) k :
+  memb bytes_eqb k (dict_keys d) =
+  match PyData.dict_get bytes_eqb d k with Some _ => true | None => false end.
+Proof.
+  unfold memb, dict_keys. induction d as [|[k' v] d IH]; [reflexivity|].
+  cbn [map fst existsb PyData.dict_get]. destruct (bytes_eqb k k'); [reflexivity|exact IH].
+Qed.
+
+(* the name map built by enumeration keeps, for each name, the LAST index bearing it *)
+Lemma name_map_get (sec : list Z * shdr_spec -> sect) name :
+  (forall x, s_name (sec x) = fst x) ->
+  forall l i0,
+  assoc_last bytes_eqb (map (fun p => (s_name (snd p), fst p)) (enumerate_from i0 (map sec l))) name
+  = index_of_last name i0 l.
+Proof.
+  intros Hsec. unfold assoc_last. induction l as [|x l IH]; intros i0; [reflexivity|].
+  cbn [map enumerate_from rev fst snd index_of_last]. rewrite pydict_get_app, IH.
+  destruct (index_of_last name (i0 + 1) l); [reflexivity|].
+  cbn [PyData.dict_get]. rewrite Hsec, bytes_eqb_sym. reflexivity.
+Qed.
+
+Lemma index_of_last_some name : forall l i0 j,
+  index_of_last name i0 l = Some j ->
+  i0 <= j < i0 + zlen l /\
+  (exists x, nth_error l (Z.to_nat (j - i0)) = Some x /\ fst x = name) /\
+  (forall k x', nth_error l k = Some x' -> fst x' = name -> i0 + Z.of_nat k <= j).
+Proof.
+  induction l as [|x l IH]; intros i0 j H; [discriminate|].
+  cbn [index_of_last] in H. rewrite zlen_cons.
+  destruct (index_of_last name (i0 + 1) l) as [j'|] eqn:E.
+  - inversion H; subst j'. destruct (IH _ _ E) as (Hr & (y & Hy & Hn) & Hmax).
+    split; [lia|]. split.
+    + exists y. split; [|exact Hn].
+      replace (Z.to_nat (j - i0)) with (S (Z.to_nat (j - (i0 + 1)))) by lia. exact Hy.
+    + intros k x' Hk Hx'. destruct k as [|k]; [lia|]. cbn [nth_error] in Hk.
+      specialize (Hmax k x' Hk Hx'). lia.
+  - destruct (bytes_eqb (fst x) name) eqn:Eb; [|discriminate]. inversion H; subst j.
+    apply bytes_eqb_eq in Eb. pose proof (zlen_nonneg l). split; [lia|]. split.
+    + exists x. rewrite Z.sub_diag. split; [reflexivity|exact Eb].
+    + intros k x' Hk Hx'. destruct k as [|k]; [lia|]. cbn [nth_error] in Hk. exfalso.
+      clear -E Hk Hx'. revert i0 k E Hk. induction l as [|y l IHl]; intros i0 k E Hk; [destruct k; discriminate|].
+      cbn [index_of_last] in E. destruct (index_of_last name (i0 + 1 + 1) l) eqn:E'; [discriminate|].
+      destruct k as [|k]; cbn [nth_error] in Hk.
+      * inversion Hk; subst y. rewrite (proj2 (bytes_eqb_eq _ _) Hx') in E. discriminate.
+      * exact (IHl _ _ E' Hk).
+Qed.
+
+Lemma index_of_last_none name : forall l i0,
+  index_of_last name i0 l = None <-> (forall x, In x l -> fst x <> name).
+Proof.
+  induction l as [|x l IH]; intros i0.
+  - split; [intros _ x []|reflexivity].
+  - cbn [index_of_last]. split.
+    + intros H. destruct (index_of_last name (i0 + 1) l) eqn:E; [discriminate|].
+      destruct (bytes_eqb (fst x) name) eqn:Eb; [discriminate|].
+      intros y [<-|Hy].
+      * intros Hn. rewrite (proj2 (bytes_eqb_eq _ _) Hn) in Eb. discriminate.
+      * exact (proj1 (IH _) E y Hy).
+    + intros H. rewrite (proj2 (IH (i0 + 1)) (fun y Hy => H y (or_intror Hy))).
+      destruct (bytes_eqb (fst x) name) eqn:Eb; [|reflexivity].
+      apply bytes_eqb_eq in Eb. exfalso. exact (H x (or_introl eq_refl) Eb).
+Qed.
+
+Definition dummy_sect : sect := {| s_name := []; s_hdr := []; s_kind := "" |}.
+Definition dummy_segm : segm := {| g_hdr := []; g_kind := "" |}.
+
+Lemma sec_of_kind s x : s_kind (sec_of s x) = spec_kind (sh_tyname s (snd x)) (fst x).
+Proof. reflexivity. Qed.
+Lemma sec_of_hdr s x : s_hdr (sec_of s x) = exp_shdr s (snd x). Proof. reflexivity. Qed.
+Lemma sec_of_name s x : s_name (sec_of s x) = fst x. Proof. reflexivity. Qed.
 
 Section WF.
 Variable img : list Z.
@@ -176,7 +260,7 @@ Proof.
     + f_equal. lia.
     + destruct Hc as [Hc|(Hc & Hn & Hi)]; [lia|].
       destruct (nth_sec_some s 0 ltac:(lia)) as [x0 Hx0]. pose proof (sec0_nth s x0 Hx0) as Hs0.
-      rewrite (get_section_ok img s Hwf 0 x0 Hx0). cbn [bind sec_of s_hdr].
+      rewrite (get_section_ok img s Hwf 0 x0 Hx0). cbn [bind]. rewrite sec_of_hdr.
       rewrite shdr_get_info, <- Hs0, Hi. reflexivity.
 Qed.
 
@@ -188,10 +272,10 @@ Proof.
   cbn [dynseg_scan].
   destruct (nth_sec_some s i (H i (or_introl eq_refl))) as [x Hx].
   rewrite (get_section_ok img s Hwf i x Hx). cbn [bind].
-  destruct ((s_kind (sec_of s x) =? "DynamicSection")%string &&
-            (hz (s_hdr (sec_of s x)) "sh_offset" =? off)) eqn:E.
+  rewrite sec_of_kind, sec_of_hdr.
+  destruct ((spec_kind (sh_tyname s (snd x)) (fst x) =? "DynamicSection")%string &&
+            (hz (exp_shdr s (snd x)) "sh_offset" =? off)) eqn:E.
   - apply andb_prop in E. destruct E as [Ek _]. apply String.eqb_eq in Ek.
-    cbn [sec_of s_kind s_hdr] in Ek |- *.
     pose proof (in_req_ok img s Hwf x (nth_sec_in _ _ _ Hx)) as Hr.
     rewrite (kind_dynamic _ _ Ek) in Hr. cbn [req_ok] in Hr.
     rewrite dynamic_link_ok_eq in Hr. rewrite shdr_get_link.
@@ -223,5 +307,114 @@ Lemma get_segment_ok j p : nth_seg s j = Some p -> get_segment EF j = Ok (seg_of
 Proof.
   intros Hp. unfold get_segment. cbn [ef_core exp_file].
   rewrite (segment_header_ok j p Hp). cbn [bind]. apply make_segment_ok.
+Qed.
+(* ---- the enumerations *)
+Lemma all_sections_ok :
+  for_range C (n_sections s) (get_section EF) = Ok (map (sec_of s) (i_sections s)).
+Proof.
+  rewrite (for_range_ok C _ _ (fun i => match nth_sec s i with Some x => sec_of s x | None => dummy_sect end)).
+  - f_equal. unfold n_sections, zlen. rewrite Nat2Z.id. apply map_range_nth.
+    intros i x Hx. unfold nth_sec, n_sections, zlen.
+    assert (Hlt : (i < length (i_sections s))%nat) by (apply nth_error_Some; congruence).
+    destruct (Z.leb_spec 0 (Z.of_nat i)) as [_|E]; [|lia].
+    destruct (Z.ltb_spec (Z.of_nat i) (Z.of_nat (length (i_sections s)))) as [_|E]; [|lia].
+    cbn [andb]. rewrite Nat2Z.id, Hx. reflexivity.
+  - exact sections_fit.
+  - intros i Hi. destruct (nth_sec_some s i Hi) as [x Hx]. rewrite Hx.
+    apply (get_section_ok img s Hwf). exact Hx.
+Qed.
+
+Lemma iter_sections_ok ty :
+  iter_sections EF ty =
+  Ok (map (sec_of s) (match ty with
+                      | None => i_sections s
+                      | Some t => filter (fun x => hval_eqb (sh_tyname s (snd x)) t) (i_sections s)
+                      end)).
+Proof.
+  unfold iter_sections. rewrite (num_sections_ok img s Hwf). cbn [bind ef_core exp_file].
+  rewrite all_sections_ok. cbn [bind]. destruct ty as [t|]; [|reflexivity].
+  rewrite filter_map_comm.
+  rewrite (filter_ext _ (fun x => hval_eqb (sh_tyname s (snd x)) t)); [reflexivity|].
+  intros x. rewrite sec_of_hdr, shdr_get_type. reflexivity.
+Qed.
+
+Lemma all_segments_ok :
+  for_range C (n_segments s) (get_segment EF) = Ok (map (seg_of s) (i_segments s)).
+Proof.
+  rewrite (for_range_ok C _ _ (fun j => match nth_seg s j with Some p => seg_of s p | None => dummy_segm end)).
+  - f_equal. unfold n_segments, zlen. rewrite Nat2Z.id. apply map_range_nth.
+    intros i p Hp. unfold nth_seg, n_segments, zlen.
+    assert (Hlt : (i < length (i_segments s))%nat) by (apply nth_error_Some; congruence).
+    destruct (Z.leb_spec 0 (Z.of_nat i)) as [_|E]; [|lia].
+    destruct (Z.ltb_spec (Z.of_nat i) (Z.of_nat (length (i_segments s)))) as [_|E]; [|lia].
+    cbn [andb]. rewrite Nat2Z.id, Hp. reflexivity.
+  - exact segments_fit.
+  - intros j Hj. destruct (nth_seg_some s j Hj) as [p Hp]. rewrite Hp.
+    apply get_segment_ok. exact Hp.
+Qed.
+
+Lemma seg_of_hdr p : g_hdr (seg_of s p) = exp_phdr s p. Proof. reflexivity. Qed.
+
+Lemma iter_segments_ok ty :
+  iter_segments EF ty =
+  Ok (map (seg_of s) (match ty with
+                      | None => i_segments s
+                      | Some t => filter (fun p => hval_eqb (p_tyname s p) t) (i_segments s)
+                      end)).
+Proof.
+  unfold iter_segments. rewrite num_segments_ok. cbn [bind ef_core exp_file].
+  rewrite all_segments_ok. cbn [bind]. destruct ty as [t|]; [|reflexivity].
+  rewrite filter_map_comm.
+  rewrite (filter_ext _ (fun p => hval_eqb (p_tyname s p) t)); [reflexivity|].
+  intros p. rewrite seg_of_hdr, phdr_get_type. reflexivity.
+Qed.
+
+(* ---- lookups by name *)
+Lemma name_map_lookup name : exists m,
+  make_section_name_map EF = Ok m /\
+  PyData.dict_get bytes_eqb m name = exp_index_by_name s name.
+Proof.
+  eexists. split.
+  - unfold make_section_name_map. rewrite (iter_sections_ok None). cbn [bind]. reflexivity.
+  - rewrite (dict_of_list_get bytes_eqb bytes_eqb_eq).
+    apply (name_map_get (sec_of s) name (sec_of_name s)).
+Qed.
+
+Lemma section_index_ok name : get_section_index EF name = Ok (exp_index_by_name s name).
+Proof.
+  destruct (name_map_lookup name) as (m & Hm & Hg). unfold get_section_index.
+  rewrite Hm. cbn [bind]. rewrite Hg. reflexivity.
+Qed.
+
+Lemma has_section_ok name :
+  has_section EF name = Ok (match exp_index_by_name s name with Some _ => true | None => false end).
+Proof.
+  destruct (name_map_lookup name) as (m & Hm & Hg). unfold has_section.
+  rewrite Hm. cbn [bind]. rewrite memb_keys_get, Hg. reflexivity.
+Qed.
+
+Lemma index_by_name_nth name j : exp_index_by_name s name = Some j ->
+  exists x, nth_sec s j = Some x /\ fst x = name.
+Proof.
+  intros H. unfold exp_index_by_name in H.
+  destruct (index_of_last_some name _ _ _ H) as (Hr & (x & Hx & Hn) & _).
+  exists x. split; [|exact Hn]. unfold nth_sec, n_sections.
+  destruct (Z.leb_spec 0 j) as [_|E]; [|lia].
+  destruct (Z.ltb_spec j (zlen (i_sections s))) as [_|E]; [|lia].
+  cbn [andb]. rewrite Z.sub_0_r in Hx. exact Hx.
+Qed.
+
+Lemma section_by_name_ok name :
+  get_section_by_name EF name =
+  Ok (match exp_index_by_name s name with
+      | Some j => match nth_sec s j with Some x => Some (sec_of s x) | None => None end
+      | None => None
+      end).
+Proof.
+  destruct (name_map_lookup name) as (m & Hm & Hg). unfold get_section_by_name.
+  rewrite Hm. cbn [bind]. rewrite Hg.
+  destruct (exp_index_by_name s name) as [j|] eqn:E; [|reflexivity].
+  destruct (index_by_name_nth name j E) as (x & Hx & _). rewrite Hx.
+  rewrite (get_section_ok img s Hwf j x Hx). reflexivity.
 Qed.
 End WF.
